@@ -295,7 +295,7 @@ def run(chk):
     sw = Sweep(chk, quick, rnd)
     build(sw)
     from . import c02_tlcfmt
-    wd = VERIF / "out" / "work" / "C02_in"
+    wd = tlc.WORK / "C02_in"
     wd.mkdir(parents=True, exist_ok=True)
     (wd / "shapes.json").write_text(json.dumps(sw.shapes))
     r = tlc.run("MC_Algo", "INIT Init\nNEXT Next\n", name="C02_programs", workers=16, env={"TRACE_FILE": str(wd / "shapes.json")}, coverage=False, timeout=3000, heap="12g")
